@@ -386,6 +386,126 @@ thread_local! {
     static CUR_ENDIAN: std::cell::RefCell<bool> = std::cell::RefCell::new(false);
 }
 
+fn is_reader_op(op: &str) -> bool {
+    matches!(op, "s_read_val" | "s_read_bytes" | "s_read_string" | "s_read_pointer" | "s_read_labels" | "s_read_c_string" | "s_read_label")
+}
+
+/// One call on a live reader (the cursor is the reader's own); seek / skip included.
+fn reader_call(rd: &mut BinArchiveReader, ev: &Value) -> Value {
+    let op = ev["op"].as_str().unwrap();
+    let n = to_usize(ev["n"].as_i64().unwrap());
+    let ty = ev["ty"].as_str().unwrap_or("");
+    match op {
+        "seek" => {
+            rd.seek(to_usize(ev["a"].as_i64().unwrap()));
+            res_unit()
+        }
+        "skip" => {
+            rd.skip(n);
+            res_unit()
+        }
+        "s_read_val" => {
+            let r = match (n, ty) {
+                (1, "u") => rd.read_u8().map(|x| x as u32).ok(),
+                (1, _) => rd.read_i8().map(|x| x as u8 as u32).ok(),
+                (2, "u") => rd.read_u16().map(|x| x as u32).ok(),
+                (2, _) => rd.read_i16().map(|x| x as u16 as u32).ok(),
+                (4, "u") => rd.read_u32().ok(),
+                (4, "i") => rd.read_i32().map(|x| x as u32).ok(),
+                (4, _) => rd.read_f32().map(|x| x.to_bits()).ok(),
+                _ => usage("s_read_val width"),
+            };
+            r.map(|x| res_val(digits_be(x, n))).unwrap_or_else(res_err)
+        }
+        "s_read_bytes" => match rd.read_bytes(n) {
+            Ok(b) => res_val(bytes_to_json(&b)),
+            Err(_) => res_err(),
+        },
+        "s_read_string" => opt_of(rd.read_string().map(|o| o.map(|s| sj_json(&s)))),
+        "s_read_pointer" => opt_of(rd.read_pointer().map(|o| o.map(|p| json!([from_usize(p)])))),
+        "s_read_labels" => opt_of(rd.read_labels().map(|o| o.map(|l| Value::Array(l.iter().map(|x| sj_json(x)).collect())))),
+        "s_read_c_string" => opt_of(rd.read_c_string().map(|o| o.map(|s| cstr_json(&s)))),
+        "s_read_label" => opt_of(rd.read_label(n).map(|o| o.map(|s| sj_json(&s)))),
+        other => usage(&format!("unknown reader op {}", other)),
+    }
+}
+
+/// One call on a live writer; seek / skip / allocate_at_end / size included.
+fn writer_call(w: &mut BinArchiveWriter, ev: &Value) -> Value {
+    let op = ev["op"].as_str().unwrap();
+    let n = to_usize(ev["n"].as_i64().unwrap());
+    let ge = ev["ge"].as_bool().unwrap();
+    let ty = ev["ty"].as_str().unwrap_or("");
+    let bs = &ev["bs"];
+    let t = to_usize(ev["t"].as_i64().unwrap_or(0));
+    let s_of = |v: &Value| sjis_to_string(&json_to_bytes(v));
+    match op {
+        "seek" => {
+            w.seek(to_usize(ev["a"].as_i64().unwrap()));
+            res_unit()
+        }
+        "skip" => {
+            w.skip(n);
+            res_unit()
+        }
+        "w_allocate_at_end" => {
+            w.allocate_at_end(n);
+            res_unit()
+        }
+        // both size observers of the writer in one step
+        "w_size" => res_val(json!([from_usize(w.size()), from_usize(w.length())])),
+        "s_allocate" => unit_of(w.allocate(n, ge)),
+        "s_write_val" => {
+            let x = digits_val(bs);
+            let r = match (n, ty) {
+                (1, "u") => w.write_u8(x as u8),
+                (1, _) => w.write_i8(x as u8 as i8),
+                (2, "u") => w.write_u16(x as u16),
+                (2, _) => w.write_i16(x as u16 as i16),
+                (4, "u") => w.write_u32(x),
+                (4, "i") => w.write_i32(x as i32),
+                (4, _) => w.write_f32(f32::from_bits(x)),
+                _ => usage("s_write_val width"),
+            };
+            unit_of(r)
+        }
+        "s_write_bytes" => unit_of(w.write_bytes(&json_to_bytes(bs))),
+        "s_write_string" => unit_of(w.write_string(Some(&s_of(bs)))),
+        "s_delete_string" => unit_of(w.write_string(None)),
+        "s_write_pointer" => unit_of(w.write_pointer(Some(t))),
+        "s_delete_pointer" => unit_of(w.write_pointer(None)),
+        "s_write_c_string" => unit_of(w.write_c_string(s_of(bs))),
+        "s_write_label" => unit_of(w.write_label(&s_of(bs))),
+        other => usage(&format!("unknown writer op {}", other)),
+    }
+}
+
+/// A session: ONE reader or writer object (kind "r" / "w") created at cursor `a` and used for every step in turn.
+/// The result lists, per step, the call's result and the cursor reported by tell() after it.
+fn session_apply(a: &mut BinArchive, ev: &Value) -> (Value, i64) {
+    let start = to_usize(ev["a"].as_i64().unwrap());
+    let steps = ev["steps"].as_array().unwrap();
+    let mut obs = Vec::new();
+    let last;
+    if ev["kind"].as_str() == Some("r") {
+        let mut rd = BinArchiveReader::new(a, start);
+        for st in steps {
+            let r = reader_call(&mut rd, st);
+            obs.push(json!({"res": r, "pos": from_usize(rd.tell())}));
+        }
+        last = from_usize(rd.tell());
+    } else {
+        let mut w = BinArchiveWriter::new(a, start);
+        for st in steps {
+            let r = writer_call(&mut w, st);
+            obs.push(json!({"res": r, "pos": from_usize(w.tell())}));
+        }
+        last = from_usize(w.tell());
+    }
+    (json!({"steps": obs}), last)
+}
+
+
 /// Apply one event to the archive; returns (res, cursor position reported: 0 for positional calls).
 fn sm_apply(a: &mut BinArchive, ev: &Value) -> (Value, i64) {
     let op = ev["op"].as_str().unwrap();
@@ -443,11 +563,6 @@ fn sm_apply(a: &mut BinArchive, ev: &Value) -> (Value, i64) {
         "read_pointer" => (opt_of(a.read_pointer(addr).map(|o| o.map(|p| json!([from_usize(p)])))), 0),
         "read_labels" => (opt_of(a.read_labels(addr).map(|o| o.map(|l| Value::Array(l.iter().map(|x| sj_json(x)).collect())))), 0),
         "read_c_string" => (opt_of(a.read_c_string(addr).map(|o| o.map(|s| cstr_json(&s)))), 0),
-        "s_read_c_string" => {
-            let mut rd = BinArchiveReader::new(a, addr);
-            let r = opt_of(rd.read_c_string().map(|o| o.map(|s| cstr_json(&s))));
-            (r, from_usize(rd.tell()))
-        }
         "write_string" => (unit_of(a.write_string(addr, Some(&s_of(bs)))), 0),
         "delete_string" => (unit_of(a.delete_string(addr)), 0),
         "write_pointer" => (unit_of(a.write_pointer(addr, Some(t))), 0),
@@ -504,103 +619,18 @@ fn sm_apply(a: &mut BinArchive, ev: &Value) -> (Value, i64) {
                 (r.map(|x| res_val(digits_be(x, n))).unwrap_or_else(res_err), 0)
             }
         }
-        "s_read_label" => {
-            let mut rd = BinArchiveReader::new(a, addr);
-            let r = opt_of(rd.read_label(n).map(|o| o.map(|s| sj_json(&s))));
-            (r, from_usize(rd.tell()))
-        }
-        // ---- streams: created at the cursor, one call, tell()
-        "s_allocate" => {
-            let mut w = BinArchiveWriter::new(a, addr);
-            let r = unit_of(w.allocate(n, ge));
-            (r, from_usize(w.tell()))
-        }
-        "s_read_val" => {
-            let mut rd = BinArchiveReader::new(a, addr);
-            let r = match (n, ty) {
-                (1, "u") => rd.read_u8().map(|x| x as u32).ok(),
-                (1, _) => rd.read_i8().map(|x| x as u8 as u32).ok(),
-                (2, "u") => rd.read_u16().map(|x| x as u32).ok(),
-                (2, _) => rd.read_i16().map(|x| x as u16 as u32).ok(),
-                (4, "u") => rd.read_u32().ok(),
-                (4, "i") => rd.read_i32().map(|x| x as u32).ok(),
-                (4, _) => rd.read_f32().map(|x| x.to_bits()).ok(),
-                _ => usage("s_read_val width"),
-            };
-            (r.map(|x| res_val(digits_be(x, n))).unwrap_or_else(res_err), from_usize(rd.tell()))
-        }
-        "s_write_val" => {
-            let x = digits_val(bs);
-            let mut w = BinArchiveWriter::new(a, addr);
-            let r = match (n, ty) {
-                (1, "u") => w.write_u8(x as u8),
-                (1, _) => w.write_i8(x as u8 as i8),
-                (2, "u") => w.write_u16(x as u16),
-                (2, _) => w.write_i16(x as u16 as i16),
-                (4, "u") => w.write_u32(x),
-                (4, "i") => w.write_i32(x as i32),
-                (4, _) => w.write_f32(f32::from_bits(x)),
-                _ => usage("s_write_val width"),
-            };
-            (unit_of(r), from_usize(w.tell()))
-        }
-        "s_read_bytes" => {
-            let mut rd = BinArchiveReader::new(a, addr);
-            let r = match rd.read_bytes(n) {
-                Ok(b) => res_val(bytes_to_json(&b)),
-                Err(_) => res_err(),
-            };
-            (r, from_usize(rd.tell()))
-        }
-        "s_write_bytes" => {
-            let mut w = BinArchiveWriter::new(a, addr);
-            let r = unit_of(w.write_bytes(&json_to_bytes(bs)));
-            (r, from_usize(w.tell()))
-        }
-        "s_read_string" => {
-            let mut rd = BinArchiveReader::new(a, addr);
-            let r = opt_of(rd.read_string().map(|o| o.map(|s| sj_json(&s))));
-            (r, from_usize(rd.tell()))
-        }
-        "s_read_pointer" => {
-            let mut rd = BinArchiveReader::new(a, addr);
-            let r = opt_of(rd.read_pointer().map(|o| o.map(|p| json!([from_usize(p)]))));
-            (r, from_usize(rd.tell()))
-        }
-        "s_read_labels" => {
-            let mut rd = BinArchiveReader::new(a, addr);
-            let r = opt_of(rd.read_labels().map(|o| o.map(|l| Value::Array(l.iter().map(|x| sj_json(x)).collect()))));
-            (r, from_usize(rd.tell()))
-        }
-        "s_write_string" => {
-            let mut w = BinArchiveWriter::new(a, addr);
-            let r = unit_of(w.write_string(Some(&s_of(bs))));
-            (r, from_usize(w.tell()))
-        }
-        "s_delete_string" => {
-            let mut w = BinArchiveWriter::new(a, addr);
-            let r = unit_of(w.write_string(None));
-            (r, from_usize(w.tell()))
-        }
-        "s_write_pointer" => {
-            let mut w = BinArchiveWriter::new(a, addr);
-            let r = unit_of(w.write_pointer(Some(t)));
-            (r, from_usize(w.tell()))
-        }
-        "s_delete_pointer" => {
-            let mut w = BinArchiveWriter::new(a, addr);
-            let r = unit_of(w.write_pointer(None));
-            (r, from_usize(w.tell()))
-        }
-        "s_write_c_string" => {
-            let mut w = BinArchiveWriter::new(a, addr);
-            let r = unit_of(w.write_c_string(s_of(bs)));
-            (r, from_usize(w.tell()))
-        }
-        "s_write_label" => {
-            let mut w = BinArchiveWriter::new(a, addr);
-            let r = unit_of(w.write_label(&s_of(bs)));
-            (r, from_usize(w.tell()))
+        "session" => session_apply(a, ev),
+        o if o.starts_with("s_") => {
+            // one-shot stream call: an object created at the cursor, one call, tell()
+            if is_reader_op(o) {
+                let mut rd = BinArchiveReader::new(a, addr);
+                let r = reader_call(&mut rd, ev);
+                (r, from_usize(rd.tell()))
+            } else {
+                let mut w = BinArchiveWriter::new(a, addr);
+                let r = writer_call(&mut w, ev);
+                (r, from_usize(w.tell()))
+            }
         }
         other => usage(&format!("unknown op {}", other)),
     }
@@ -614,8 +644,16 @@ fn sm_project(a: &BinArchive, endian: &str) -> Value {
     }
 }
 
+fn res_matches(o: &Value, got: &Value) -> bool {
+    match (o["steps"].as_array(), got["steps"].as_array()) {
+        // session: step by step, an open cursor (-1) matches every cursor
+        (Some(a), Some(b)) => a.len() == b.len() && a.iter().zip(b).all(|(x, y)| x["res"] == y["res"] && (x["pos"].as_i64() == Some(-1) || x["pos"] == y["pos"])),
+        _ => o == got,
+    }
+}
+
 fn outcome_matches(o: &Value, got: &Value) -> bool {
-    o["res"] == got["res"] && o["st"] == got["st"] && (o["pos"].as_i64() == Some(-1) || o["pos"] == got["pos"])
+    res_matches(&o["res"], &got["res"]) && o["st"] == got["st"] && (o["pos"].as_i64() == Some(-1) || o["pos"] == got["pos"])
 }
 
 fn sm_replay(cases_path: &str, out_path: &str) {
@@ -677,6 +715,92 @@ fn cell_has(p: &Value, key: &str, a: i64) -> bool {
     p[key].as_array().unwrap().iter().any(|x| x[0].as_i64() == Some(a))
 }
 
+/// A random session (one live reader / writer used for several calls).  Annotation writes are only made right after a
+/// seek to a cell known to be free (one annotation per cell is the domain of the properties); after an insert the
+/// free cells are no longer known and none is made.
+fn random_session(rng: &mut Rng, p: &Value, focus: &str) -> Value {
+    let size0 = p["data"].as_array().unwrap().len() as i64;
+    let names: [&[u8]; 3] = [b"A", b"BC", b"Lbl"];
+    let writer = focus == "c03" || rng.chance(1, 2);
+    let mut free: Vec<i64> = (0..size0 / 4).map(|c| 4 * c).filter(|a| !cell_has(p, "text", *a) && !cell_has(p, "ptrs", *a) && !cell_has(p, "cstr", *a)).collect();
+    let mut sz = size0; // size as the session is expected to leave it (an estimate: the specification decides)
+    let mut hi = false; // cursor possibly near usize::MAX: no skip
+    let mut steps: Vec<Value> = Vec::new();
+    let start = match rng.below(4) {
+        0 => 0,
+        1 => size0,
+        _ => rng.below(size0 as usize + 1) as i64 / if focus == "c03" { 4 } else { 1 } * if focus == "c03" { 4 } else { 1 },
+    };
+    let n_steps = rng.range(2, 7);
+    while steps.len() < n_steps {
+        let r = rng.below(100);
+        if r < 22 {
+            let a = match rng.below(8) {
+                0 => 0,
+                1 => size0,
+                2 => sz,
+                3 => sz + 4,
+                4 if focus == "c04" => MAXU - rng.below(5) as i64,
+                5 => rng.below(sz as usize + 2) as i64,
+                _ => 4 * rng.below((sz / 4).max(1) as usize) as i64,
+            };
+            hi = a >= (1 << 28);
+            steps.push(ev("seek", a, 0, false, json!([]), 0, ""));
+        } else if r < 27 && !hi {
+            steps.push(ev("skip", 0, [0i64, 1, 4][rng.below(3)], false, json!([]), 0, ""));
+        } else if !writer {
+            let w = [1i64, 2, 4][rng.below(3)];
+            let ty = if w == 4 { ["u", "i", "f"][rng.below(3)] } else { ["u", "i"][rng.below(2)] };
+            steps.push(match rng.below(10) {
+                0..=3 => ev("s_read_val", 0, w, false, json!([]), 0, ty),
+                4..=5 => ev("s_read_bytes", 0, rng.below(6) as i64, false, json!([]), 0, ""),
+                6 => ev("s_read_string", 0, 0, false, json!([]), 0, ""),
+                7 => ev("s_read_pointer", 0, 0, false, json!([]), 0, ""),
+                8 => ev("s_read_labels", 0, 0, false, json!([]), 0, ""),
+                _ => ev("s_read_c_string", 0, 0, false, json!([]), 0, ""),
+            });
+        } else if r < 40 && focus == "c03" && sz <= 200 {
+            let n = [0i64, 3, 4, 8][rng.below(4)];
+            sz += n;
+            steps.push(ev("w_allocate_at_end", 0, n, false, json!([]), 0, ""));
+        } else if r < 55 && focus == "c03" && sz <= 200 {
+            let n = [0i64, 4, 8, 3][rng.below(4)];
+            if n % 4 == 0 {
+                sz += n;
+            }
+            free.clear();
+            steps.push(ev("s_allocate", 0, n, rng.chance(1, 2), json!([]), 0, ""));
+        } else if r < 70 && !free.is_empty() {
+            let a = free.swap_remove(rng.below(free.len()));
+            hi = false;
+            steps.push(ev("seek", a, 0, false, json!([]), 0, ""));
+            let nm = bytes_to_json(names[rng.below(3)]);
+            steps.push(match rng.below(3) {
+                0 => ev("s_write_string", 0, 0, false, nm, 0, ""),
+                1 => ev("s_write_pointer", 0, 0, false, json!([]), rng.below(sz as usize + 1) as i64, ""),
+                _ => ev("s_write_c_string", 0, 0, false, nm, 0, ""),
+            });
+        } else if r < 76 {
+            steps.push(ev("s_write_label", 0, 0, false, bytes_to_json(names[rng.below(3)]), 0, ""));
+        } else if r < 80 {
+            steps.push(ev(if rng.chance(1, 2) { "s_delete_string" } else { "s_delete_pointer" }, 0, 0, false, json!([]), 0, ""));
+        } else if r < 85 {
+            steps.push(ev("w_size", 0, 0, false, json!([]), 0, ""));
+        } else if r < 92 && focus == "c04" {
+            let k = rng.below(6);
+            steps.push(ev("s_write_bytes", 0, 0, false, bytes_to_json(&rng.bytes(k)), 0, ""));
+        } else {
+            let w = if focus == "c03" { 4 } else { [1i64, 2, 4][rng.below(3)] };
+            let ty = if w == 4 { ["u", "i", "f"][rng.below(3)] } else { ["u", "i"][rng.below(2)] };
+            steps.push(ev("s_write_val", 0, w, false, bytes_to_json(&rng.bytes(w as usize)), 0, ty));
+        }
+    }
+    let mut e = ev("session", start, 0, false, json!([]), 0, "");
+    e["kind"] = json!(if writer { "w" } else { "r" });
+    e["steps"] = Value::Array(steps);
+    e
+}
+
 fn random_event(rng: &mut Rng, p: &Value, focus: &str) -> Value {
     let size = p["data"].as_array().unwrap().len() as i64;
     let cells = size / 4;
@@ -713,6 +837,9 @@ fn random_event(rng: &mut Rng, p: &Value, focus: &str) -> Value {
         }
         None
     };
+    if rng.chance(1, 9) {
+        return random_session(rng, p, focus);
+    }
     let stream = rng.chance(1, 2);
     let pre = |o: &str| if stream { format!("s_{}", o) } else { o.to_string() };
     if focus == "c03" {
